@@ -16,6 +16,8 @@ fn err_name(e: &Error) -> &'static str {
     }
 }
 
+const MAX_CHUNKS: usize = 70_000;
+
 fn le(b: &[u8]) -> u64 {
     b.iter().rev().fold(0u64, |a, x| (a << 8) | *x as u64)
 }
@@ -35,7 +37,8 @@ fn impl_read(a: u64, n: u16, b: usize) -> Result<Result<Vec<(u64, u64)>, &'stati
             Err(e) => return Err(err_name(&e)),
         };
         let mut out = vec![];
-        for c in it {
+        // a legitimate request has at most 65535 chunks; the cap keeps a non-terminating iterator observable
+        for c in it.take(MAX_CHUNKS + 1) {
             let rl = c.read_length() as u64;
             let mut buf = vec![];
             c.finalize(0).serialize(&mut buf).unwrap();
@@ -65,7 +68,7 @@ fn impl_write(a: u64, d: &[u8], b: usize) -> Result<Result<Vec<WChunk>, &'static
             Err(e) => return Err(err_name(&e)),
         };
         let mut out = vec![];
-        for c in it {
+        for c in it.take(MAX_CHUNKS + 1) {
             let data_len = c.data_len() as u64;
             let pk = c.finalize(0);
             let cmd_len = pk.cmd_len() as u64;
@@ -123,6 +126,9 @@ fn oracle_read(a: u64, n: u16, b: usize, r: &Result<Result<Vec<(u64, u64)>, &'st
             if b <= 12 {
                 return Some("budget too small but no error".into());
             }
+            if cs.len() > MAX_CHUNKS {
+                return Some("iterator does not terminate (more than 70000 chunks)".into());
+            }
             let room = (b - 12) as u64;
             let mut next = a as u128;
             let mut sum = 0u64;
@@ -158,6 +164,9 @@ fn oracle_write(a: u64, d: &[u8], b: usize, r: &Result<Result<Vec<WChunk>, &'sta
             }
             if b <= 20 {
                 return Some("budget too small but no error".into());
+            }
+            if cs.len() > MAX_CHUNKS {
+                return Some("iterator does not terminate (more than 70000 chunks)".into());
             }
             let room = (b - 20) as u64;
             let mut next = a as u128;
